@@ -58,6 +58,7 @@ def run_behaviour(meta, steps, catalogue, check_setup=True):
     all_steps = [(s, 'setup') for s in meta.get('setup', [])] + [(s, 'step') for s in steps]
     idx = 0
     dev_before = {}          # per endpoint: deviation branches the model had taken before the current step
+    pre_z = {}               # per endpoint: the state projection observed after its previous step
     for s, phase in all_steps:
         if phase == 'step':
             idx += 1
@@ -70,6 +71,7 @@ def run_behaviour(meta, steps, catalogue, check_setup=True):
             if sess.chunk_rng is not None and s['a'] in ('recv', 'dlv') and o0['r']['c'] != 'ok':
                 return None      # fed in pieces, an input that raises leaves a partial frame behind: nothing later is comparable
             dev_before[s['x']] = s.get('dev', [])
+            pre_z[s['x']] = o0.get('z')
             continue
         if s['p'].get('ux'):
             return None          # the model says this step cannot be predicted (HPACK contexts out of step): nothing further is judged
@@ -89,8 +91,10 @@ def run_behaviour(meta, steps, catalogue, check_setup=True):
                     'call': s.get('c', s.get('fs', s.get('k'))), 'a': s['a'], 'x': s['x'],
                     'expected': {k.split('.')[0]: s['p'].get(k.split('.')[0]) for k in d},
                     'observed': {k.split('.')[0]: obs.get(k.split('.')[0]) for k in d},
-                    'dev': s.get('dev', []), 'dev_before': dev_before.get(s['x'], [])}
+                    'dev': s.get('dev', []), 'dev_before': dev_before.get(s['x'], []),
+                    'pre_z': pre_z.get(s['x']), 'obs_z': obs.get('z'), 'obs_r': obs.get('r')}
         dev_before[s['x']] = s.get('dev', [])
+        pre_z[s['x']] = obs.get('z')
         if chunked_error:
             return None
     return None
